@@ -2293,9 +2293,10 @@ task_cb(EV_P_ ev_periodic *w, int UNUSED(revents))
 	}
 
 	/* prepare for rescheduling */
-	if (UNLIKELY(w->reschedule_cb == NULL)) {
-		/* the child watcher will reap this task */
-		;
+	if (UNLIKELY(w->reschedule_cb == NULL) && !t->nsim) {
+		/* that was the last run and no child of ours is about
+		 * whose watcher could reap this task, do it now */
+		unsched(EV_A_ w, 0);
 	}
 	return;
 }
